@@ -11,7 +11,7 @@ CONSTANTS
   FastOpts = {TRUE, FALSE}
   Fast0 = TRUE
   AllowKF = {}
-  Acts = {"Scrape", "Cross", "OOO", "Mmap", "CompactHead", "CompactOOO", "EvictSel", "EvictStale", "Cut", "Tick", "Restart", "Crash"}
+  Acts = {"Scrape", "Rollback", "Cross", "OOO", "Mmap", "CompactHead", "CompactOOO", "EvictSel", "EvictStale", "Cut", "Tick", "Restart", "Crash"}
   Script <- ScriptCkpt
   EmitMode = "none"
 INVARIANTS RightLabels NoReuse MapsAgree AllocAbove EmitWalk
